@@ -18,7 +18,9 @@ RULE = (
     "hook in statham frames hands the baton after `gap` lines to the pick-th next thread - so a run "
     "is a deterministic function of (recipe, values, schedule). Oracle: every call's verdict kind and "
     "read-back result equal the sequential execution of the same calls on the same tree, and the tree "
-    "snapshot (repr, JSON, Python text, deep dump) is unchanged afterwards; error messages are not "
+    "snapshot (repr, JSON, Python text, deep dump) is unchanged afterwards; the schedule is run twice: "
+    "on the tree already used by the sequential baseline and on a freshly built tree whose first-ever "
+    "calls therefore race with each other; error messages are not "
     "compared. Thorough adds a free-running stress (8 threads x 150 calls, switch interval 1 us) with "
     "the same oracle. non-trivial = schedule with >=3 context switches actually taken on a tree with "
     "properties or tuple items; distinct = canon(case)"
@@ -83,6 +85,20 @@ def predicate(case, stats):
     snap1 = observe.snapshot(element)
     if snap1 != snap0:
         fails.append({"sub": "owned-schedule", "kind": "tree-changed:" + "+".join(observe.snapshot_diff(snap0, snap1))})
+    # the same schedule against a FRESH tree: first-ever calls race with each other (lazy initialisation)
+    fresh = R.build(case["recipe"])
+    snap_fresh = observe.snapshot(fresh)
+    sched2 = Scheduler(case["schedule"])
+    fns2 = [(lambda vs=values: [observe_call(fresh, v) for v in vs]) for values in case["threads"]]
+    try:
+        got2 = sched2.run(fns2)
+    except RuntimeError as exc:
+        return fails + [{"sub": "owned-fresh", "kind": "deadlock-or-thread-error", "detail": str(exc)[:200]}]
+    fails += compare(expected, got2, "owned-schedule-fresh-tree")
+    snap2 = observe.snapshot(fresh)
+    if snap2 != snap_fresh:
+        fails.append({"sub": "owned-schedule-fresh-tree",
+                      "kind": "tree-changed:" + "+".join(observe.snapshot_diff(snap_fresh, snap2))})
     structured = R.has_props(case["recipe"]) or any(
         isinstance(n.get("sub", {}).get("items"), list) for n in R.index(case["recipe"]).values())
     n_rej = sum(1 for t in expected for e in t if e[0] == "reject")
